@@ -59,7 +59,16 @@ Lemma br_read_gen m b d e b' : binv b -> br_read m b = (d, e, b') ->
   binv b' /\ bsize b' = bsize b /\ pending b = d ++ pending b' /\ (length d <= m)%nat.
 Proof.
   intros Hinv H. pose proof Hinv as (Hpos & Hlen & Hwf & Herr).
-  unfold br_read in H. destruct (bbuf b) as [|x r] eqn:Ebuf.
+  destruct (Nat.eq_dec m 0) as [Hm0|Hm0].
+  { (* zero-length read: the transport is not touched *)
+    subst m. unfold br_read in H. destruct (bbuf b) as [|x r] eqn:Ebuf.
+    - inversion H; subst d e b'. unfold binv, pending; rewrite Ebuf; cbn [bsize bbuf berr src app length].
+      split; [|split; [reflexivity|split; [reflexivity|lia]]].
+      split; [exact Hpos|]. split; [lia|]. split; [exact Hwf|]. intros k0 Hk; discriminate Hk.
+    - inversion H; subst d e b'. cbn [app length].
+      split; [exact Hinv|]. split; [reflexivity|]. split; [reflexivity|lia]. }
+  rewrite br_read_pos in H by lia.
+  unfold br_read_nz in H. destruct (bbuf b) as [|x r] eqn:Ebuf.
   - assert (Hps: pending b = stream_of (src b)) by (unfold pending; rewrite Ebuf; reflexivity).
     destruct (berr b) as [k|] eqn:Eb.
     { inversion H; subst d e b'. rewrite Hps. unfold binv, pending; cbn [bsize bbuf berr src app length].
